@@ -31,6 +31,13 @@ class SpyControl:
         self.armed = True
         self.instances = []         # spy PathIO instances in creation order (one per connection)
         self.only_instance = None   # faults / counting restricted to this instance index
+        # legal-but-unusual backend behaviours (a custom AbstractPathIO may show any of them)
+        self.read_cap = None        # read() returns at most this many bytes although more are available
+        self.buffered = False       # written data reaches the file only when it is closed (buffered file object) ...
+        self.close_job = False      # ... and close() first waits for an executor job (an environment event)
+        self.close_delay = 0.0      # ... or for this long (virtual time passes only when nothing else can happen)
+        self.wbuf = {}              # id(file) -> [chunks]
+        self.op_job = None          # set of ops that first wait for an executor job (exists/is_file/is_dir/stat ...)
 
     def leaked(self):
         """paths of handles aioftp received and that are not closed (a real file
@@ -59,11 +66,21 @@ class SpyControl:
             raise self.fail_exc(5, f"injected failure at backend call {k} ({op})")
 
 
-async def _after(ctl, op):
+async def _after(ctl, op, inst=None):
     """completion latency: the operation has taken effect (like a job handed to
-    a thread pool), only its completion is reported late"""
+    a thread pool), only its completion is reported late.  The backend honours
+    its ``timeout`` (Server(path_timeout=...)) the way the shipped ones do: a
+    call that takes longer raises asyncio.TimeoutError from inside the call."""
     if ctl.armed and ctl.delay and (ctl.delay_ops is None or op in ctl.delay_ops):
-        await asyncio.sleep(ctl.delay)
+        await asyncio.wait_for(asyncio.sleep(ctl.delay), getattr(inst, "timeout", None))
+
+
+def _close_job():
+    return None
+
+
+def _op_job():
+    return None
 
 
 def make_spy(base, ctl):
@@ -83,43 +100,49 @@ def make_spy(base, ctl):
         @ue
         async def exists(self, path):
             await ctl.before("exists", (path,), self)
+            if ctl.op_job and "exists" in ctl.op_job and ctl.armed:
+                await asyncio.get_running_loop().run_in_executor(None, _op_job)
             r = await super().exists(path)
-            await _after(ctl, "exists")
+            await _after(ctl, "exists", self)
             return r
 
         @ue
         async def is_dir(self, path):
             await ctl.before("is_dir", (path,), self)
+            if ctl.op_job and "is_dir" in ctl.op_job and ctl.armed:
+                await asyncio.get_running_loop().run_in_executor(None, _op_job)
             r = await super().is_dir(path)
-            await _after(ctl, "is_dir")
+            await _after(ctl, "is_dir", self)
             return r
 
         @ue
         async def is_file(self, path):
             await ctl.before("is_file", (path,), self)
+            if ctl.op_job and "is_file" in ctl.op_job and ctl.armed:
+                await asyncio.get_running_loop().run_in_executor(None, _op_job)
             r = await super().is_file(path)
-            await _after(ctl, "is_file")
+            await _after(ctl, "is_file", self)
             return r
 
         @ue
         async def mkdir(self, path, **kw):
             await ctl.before("mkdir", (path,), self)
             r = await super().mkdir(path, **kw)
-            await _after(ctl, "mkdir")
+            await _after(ctl, "mkdir", self)
             return r
 
         @ue
         async def rmdir(self, path):
             await ctl.before("rmdir", (path,), self)
             r = await super().rmdir(path)
-            await _after(ctl, "rmdir")
+            await _after(ctl, "rmdir", self)
             return r
 
         @ue
         async def unlink(self, path):
             await ctl.before("unlink", (path,), self)
             r = await super().unlink(path)
-            await _after(ctl, "unlink")
+            await _after(ctl, "unlink", self)
             return r
 
         def list(self, path):
@@ -131,7 +154,7 @@ def make_spy(base, ctl):
                 async def __anext__(s):
                     await ctl.before("list", (path,), outer)
                     r = await inner.__anext__()
-                    await _after(ctl, "list")
+                    await _after(ctl, "list", outer)
                     return r
 
             return L(timeout=self.timeout)
@@ -139,38 +162,51 @@ def make_spy(base, ctl):
         @ue
         async def stat(self, path):
             await ctl.before("stat", (path,), self)
+            if ctl.op_job and "stat" in ctl.op_job and ctl.armed:
+                await asyncio.get_running_loop().run_in_executor(None, _op_job)
             r = await super().stat(path)
-            await _after(ctl, "stat")
+            await _after(ctl, "stat", self)
             return r
 
         @ue
         async def _open(self, path, *a, **kw):
             await ctl.before("_open", (path,), self)
             f = await super()._open(path, *a, **kw)
-            await _after(ctl, "_open")
+            await _after(ctl, "_open", self)
             ctl.opened += 1
             ctl.open_files[id(f)] = (str(path), f)
             return f
 
+        async def _flush(self, file):
+            for chunk in ctl.wbuf.pop(id(file), []):
+                await super().write(file, chunk)
+
         @ue
         async def seek(self, file, *a, **kw):
             await ctl.before("seek", (), self)
+            await self._flush(file)
             r = await super().seek(file, *a, **kw)
-            await _after(ctl, "seek")
+            await _after(ctl, "seek", self)
             return r
 
         @ue
         async def write(self, file, *a, **kw):
             await ctl.before("write", (), self)
+            if ctl.buffered and ctl.armed:
+                ctl.wbuf.setdefault(id(file), []).append(bytes(a[0]))
+                await _after(ctl, "write", self)
+                return None
             r = await super().write(file, *a, **kw)
-            await _after(ctl, "write")
+            await _after(ctl, "write", self)
             return r
 
         @ue
         async def read(self, file, *a, **kw):
             await ctl.before("read", (), self)
+            if ctl.read_cap is not None and ctl.armed and a and a[0] is not None and (a[0] < 0 or a[0] > ctl.read_cap):
+                a = (ctl.read_cap,) + tuple(a[1:])
             r = await super().read(file, *a, **kw)
-            await _after(ctl, "read")
+            await _after(ctl, "read", self)
             return r
 
         @ue
@@ -183,9 +219,14 @@ def make_spy(base, ctl):
                 # an injected close failure says nothing about who leaked the handle
                 ctl.open_files.pop(id(file), None)
                 raise
+            if ctl.close_job and ctl.armed:
+                await asyncio.get_running_loop().run_in_executor(None, _close_job)
+            if ctl.close_delay and ctl.armed:
+                await asyncio.sleep(ctl.close_delay)
+            await self._flush(file)
             r = await super().close(file)
             ctl.open_files.pop(id(file), None)
-            await _after(ctl, "close")
+            await _after(ctl, "close", self)
             return r
 
         @ue
@@ -194,7 +235,7 @@ def make_spy(base, ctl):
             if ctl.armed:
                 ctl.calls[-1] = ("rename", str(source) + " -> " + str(destination))
             r = await super().rename(source, destination)
-            await _after(ctl, "rename")
+            await _after(ctl, "rename", self)
             return r
 
     Spy.__name__ = "Spy" + base.__name__
